@@ -5,7 +5,7 @@
 import os, sys
 sys.path.insert(0, os.path.join(os.environ.get("AIOFTP_REPO", "/repo"), "src"))
 OBLIGATION = 'aioftp.server:mlsd_worker@mlsd::worker.<locals>.wrapper/detach:takes-over-exactly-the-stream-it-read-atomically'
-MODEL = {'data_connection_done!22': True, 'dc_accepted!38': True, 'restart_offset!10': 0, 'child!38': 'OPath!val!0', 'block_size!0': 1, 'wait_future_timeout!41': '0/1', 'dc_accepted!43': False, 'dc_accepted!39': False, 'dc_accepted!33': False, 'dc_accepted!30': False, 'dc_accepted!32': False, 'dc_accepted!29': False, 'data_connection_present!21': False, 'user_present!11': True, 'current_directory_done!16': True, 'fsbool!35': True, 'user_done!12': True, 'current_directory_present!15': True, 'readable!36': True, 'passive_server_present!19': True, 'logged_present!13': True, 'passive_server_done!20': True, 'logged_done!14': True, 'fsbool!62': True, 'fsbool!58': False, 'auth_ok!27': True}
+MODEL = {'restart_offset!10': 0, 'wait_future_timeout!48': '0/1', 'data_connection_done!22': True, 'dc_accepted!38': True, 'child!56': 'OPath!val!0', 'block_size!0': 1, 'dc_accepted!50': False, 'dc_accepted!39': False, 'dc_accepted!33': False, 'dc_accepted!30': False, 'dc_accepted!32': False, 'dc_accepted!29': False, 'data_connection_present!21': False, 'user_present!11': True, 'user_done!12': True, 'fsbool!35': True, 'current_directory_present!90': True, 'current_directory_present!52': True, 'current_directory_present!41': True, 'passive_server_done!20': True, 'logged_done!14': True, 'current_directory_done!80': True, 'current_directory_done!53': True, 'current_directory_done!103': True, 'current_directory_done!16': True, 'current_directory_present!102': True, 'current_directory_present!15': True, 'readable!36': True, 'passive_server_present!19': True, 'current_directory_present!79': True, 'logged_present!13': True, 'fsbool!97': True, 'current_directory_present!69': True, 'current_directory_done!42': True, 'current_directory_done!70': True, 'current_directory_done!91': True, 'fsbool!86': False, 'auth_ok!27': True}
 SOLVER_NOTE = ''
 
 print("obligation", OBLIGATION, "failed; no concrete failing input could be constructed automatically")
